@@ -208,7 +208,10 @@ func Decrypt(priv *PrivateKey, in []byte) ([]byte, error) {
 func addPKCSPadding(src []byte) []byte {
 	padding := aes.BlockSize - len(src)%aes.BlockSize
 	padtext := bytes.Repeat([]byte{byte(padding)}, padding)
-	return append(src, padtext...)
+	// never append into the caller's backing array
+	padded := make([]byte, 0, len(src)+padding)
+	padded = append(padded, src...)
+	return append(padded, padtext...)
 }
 
 // removePKCSPadding removes padding from data that was added with addPKCSPadding
